@@ -90,7 +90,14 @@ class CallableModel:
 @register(name="pyvc:CoroOf")
 class CoroOfModel:
     def m___await__(self, interp, obj, args, kwargs, fr):
-        interp.yield_point(fr, f"await {obj.tag}")
+        from .sym import SObj
+
+        fn = obj.fields.get("fn")
+        if isinstance(fn, SObj) and fn.fields.get("yields", True):
+            interp.yield_point(fr, f"await {obj.tag}")
+        rec = fn.fields.get("record") if isinstance(fn, SObj) else None
+        if rec:
+            interp.traces.setdefault(rec + "_done", []).append(obj)  # the coroutine ran to completion
         return None
 
 
@@ -102,6 +109,7 @@ def load_all():
     from . import models_rt  # noqa: F401
     from . import models_io  # noqa: F401
     from . import models_serve  # noqa: F401
+    from . import models_wsgi  # noqa: F401
 
 
 load_all()
